@@ -22,6 +22,10 @@ CLAIMS = {
          "oauth.ValidateJWT, parseAndValidateJWT (and its keyfunc closure, verified as a function of its own), selectVerificationKey, keyByID, allKeys, findKeyByID, refreshJWKS and resetJWKSCache are under contract: a nil error implies the JWT library verified the signature with a key the keyfunc returned (published JWKS keys only, ECDSA/RSA only), expiry was required and lies in the future, issuer/audience options were set from the configuration, and the jti was looked up in the revocation list on this call (both on a result-cache hit and on a miss). The JWKS cache carries a package invariant (every cached key is a published key) checked at every writer; the result cache carries an insertion-time invariant backed by table obligations (call-site census, entry immutability).",
          "Trusted: golang-jwt/v5 ParseWithClaims (signature verification with the keyfunc's key, enforcement of parser options), JWK parsing, tokens.IsIDBlacklisted (revocation list, C21), caches.Find/Add as a map for OAuthJWTCache (C28). Fail-open when the revocation lookup itself errors is outside the property's quantifier and is visible in the contract (lookupFailed). Sequential semantics.",
          "§7 C22"),
+ "C23": ("proof",
+         "consumeCode and consumeRefreshToken are verified under interference: between their cache lookup and their cache delete (two critical sections of the cache lock) the cache is given arbitrary new contents, standing for any number of other requests running any cache operation; under that, they may report success only when their own caches.Delete, of the very key they looked up (the code / token presented, in the right cache), returned true. caches.Delete removes the entry and reports whether it was there in one critical section (C28 contract and lock discipline), so of N requests presenting the same code or refresh token at most one succeeds, for every N and every interleaving of lookups and deletes. verifyPKCE returns nil exactly when the code carries no challenge, or its method is S256 and BASE64URL(SHA256(verifier)) equals the challenge (two-way postcondition; the hash is asserted to be taken of the verifier presented). The token endpoint is a guarded sink: access, ID and refresh tokens are minted for a code only after consumeCode succeeded on the code presented and verifyPKCE returned nil for that code's challenge and the verifier presented, with the client and redirect URI the code was issued to, and a public client's code must carry a challenge; for a refresh token only after consumeRefreshToken succeeded on the token presented, for the same client. Table obligations: codes and refresh tokens are added to their caches only where they are generated, looked up only by the consume operations, and tokens are minted only by the three grant handlers.",
+         "The interference model covers the cache state only (other shared state of the handlers is per request). That a public client without a challenge is refused is part of the sink assertion. Trusted: crypto/sha256, encoding/base64, crypto/rand (fresh keys), caches.Delete's atomicity (C28). Expiry of codes (cache lifetime, C28) is not part of this statement.",
+         "§7 C23"),
  "C24": ("proof",
          "The limiter's operations are under functional contracts over the map account -> (failures, lockedUntil), the account being the lower-cased user name auth.ValidatePassword looks up: CheckRateLimit refuses exactly while the account's lock is running and never when the limit is 0, and changes nothing; RecordFailure adds one to the account's count, locks it for the configured period when the count reaches the limit (never before, never shortening a running lock) and does nothing when the limit is 0; RecordSuccess removes the account's record; pruneLoginAttempts never drops a running lock (inductive invariant over the map range). Each carries the frame 'every other account's record is untouched' under the package invariant that records are not shared between accounts. Both login paths (router Authenticate, the OAuth authorize form) check a password only after the limiter allowed that same account, and report every checked attempt to the limiter for the same account (anchored assertions, ghost attempt state). Table obligations: every writer of the map and of the record fields, and every call site of auth.ValidatePassword, is one of the functions under contract.",
          "The property over histories follows from these per-operation transitions by induction on the history (argument in DESIGN.md; the induction itself is not machine-checked). Sequential semantics: the mutex is trusted to serialise the operations, so the concurrent histories of the quantifier are not covered. Trusted: time.Now is monotone; the configured limit and lockout period are the values read at the operation; float seconds to int keeps the sign; strings.ToLower is idempotent.",
